@@ -190,6 +190,7 @@ func (p *connPool) stayConnected(idx int) {
 		if conn == nil {
 			if !pendingConnect {
 				delay := reconnectPolicy.NextDelay()
+				vhook("slot.delay", p, idx, delay)
 				p.logger.Info("pool connection attempting to reconnect after delay",
 					zap.Stringer("endpoint", p.config.Endpoint), zap.Duration("delay", delay))
 				connectTimer = time.NewTimer(reconnectPolicy.NextDelay())
@@ -206,6 +207,7 @@ func (p *connPool) stayConnected(idx int) {
 					} else {
 						p.connsMu.Lock()
 						conn, p.conns[idx] = c, c
+						vhook("slot.fill", p, idx, c)
 						p.connsMu.Unlock()
 						reconnectPolicy.Reset()
 					}
@@ -219,8 +221,10 @@ func (p *connPool) stayConnected(idx int) {
 				_ = conn.Close()
 			case <-conn.IsClosed():
 				p.logger.Info("pool connection closed", zap.Stringer("endpoint", p.config.Endpoint), zap.Error(conn.Err()))
+				vhook("slot.clearing", p, idx, conn)
 				p.connsMu.Lock()
 				conn, p.conns[idx] = nil, nil
+				vhook("slot.clear", p, idx)
 				p.connsMu.Unlock()
 				pendingConnect = false
 			}
